@@ -1,6 +1,7 @@
 import Proofs.Core
 import Proofs.NNSpecLemmas
 import SynapModel.Ops
+import Proofs.SpecNN
 /-!
 # C14 — Fused operations equal the compositions their documentation equates them with
 
@@ -70,5 +71,15 @@ theorem movedim_adjacent_is_transpose (x : NDArray R) (a : Nat) (ha : a + 1 < x.
   obtain ⟨e1, e2⟩ := moveaxisPerm_adjacent x.shape.length a ha
   simp only [movedimForward, transposeForward, moveaxis, swapaxes, h0, h1, Option.bind_eq_bind,
     Option.bind_some, Option.pure_def, e1, e2, and_self]
+
+/-! ### convolution = unfold + matrix product; pooling = unfold + mean / max (statements and proofs in `Proofs/SpecNN.lean`)
+
+* `conv2d_is_unfold_matmul`   for accepted arguments the four steps the documentation names are all accepted and
+  `reshape(matmul(reshape w (C_out, C·kH·kW), unfold x), (N, C_out, H_out, W_out))` IS the result of `conv2d x w`
+* `avgpool2d_is_unfold_mean`  `avg_pool2d x = reshape(mean over axis 2 of reshape(unfold x, (N, C, kH·kW, L)))`
+* `maxpool2d_is_unfold_max`   the same with −∞ padding and `max` (needs N, C ≠ 0 — `max` rejects empty operands — and −∞ ≤ every entry) -/
+alias conv2d_is_unfold_matmul := Proofs.SpecNN.conv2d_is_unfold_matmul
+alias avgpool2d_is_unfold_mean := Proofs.SpecNN.avgpool2d_is_unfold_mean
+alias maxpool2d_is_unfold_max := Proofs.SpecNN.maxpool2d_is_unfold_max
 
 end Props.C14
